@@ -44,6 +44,12 @@ def configs(tier):
     out.append(('real', bmm.cfg_make(wrapper='tree', size=(2, 3), tol=0.01)))
     out.append(('labelled', bmm.cfg_make(wrapper='tree', size=(K,), tol=0.01)))
     out.append(('labelled', bmm.cfg_make(wrapper='tree', size=(K,), tol=0.01, given='W')))
+    # intervals that do not start at 0 (t0 < 0 < t1)
+    for levy, cache in itertools.product(['space-time', 'foster'], [1, None]):
+        out.append(('real', bmm.cfg_make(size=(2, 3), levy=levy, cache_size=cache, t0=-1., t1=1.)))
+    out.append(('labelled', bmm.cfg_make(size=(K,), levy='space-time', cache_size=2, t0=-1., t1=1.)))
+    out.append(('real', bmm.cfg_make(size=(2, 3), levy='davie', cache_size=2, dt=0.5, t0=1., t1=3.)))
+    out.append(('real', bmm.cfg_make(wrapper='tree', size=(2, 3), tol=0.01, t0=-1., t1=1.)))
     return out
 
 
@@ -81,8 +87,11 @@ def run(tier, seed):
         grid = bmm.G4 if cfg['tol'] == 0 else bmm.G5
         if cfg['tol'] == 0.01:
             grid = [0., 0.13, 0.25, 0.5, 0.77, 1.0]
-        units += ex.bfs_units(cfg, entropy, bmm.grid_ops(grid), 2, mode=mode, K=K, given=given_tensors(cfg),
-                              opts=dict(grid=grid), **vis)
+        grid = bmm.shift_grid(grid, cfg['t0'], cfg['t1'])
+        pe = mode == 'real' and cfg['via'] == 'd' and (cfg['wrapper'] != 'interval' or cfg['cache_size'] == 2
+                                                      or cfg['t0'] != 0.)
+        units += ex.bfs_units(cfg, entropy, bmm.grid_ops(grid, point_eval=pe), 2, mode=mode, K=K,
+                              given=given_tensors(cfg), opts=dict(grid=grid, points=(mode == 'real')), **vis)
     for mode, cfg in core_configs():
         if tier == 'quick':
             grid = bmm.G4 if cfg['tol'] == 0 else bmm.G5
@@ -108,6 +117,8 @@ def run(tier, seed):
             D = 2 if (tier == 'thorough' or N == 8) else 1
             units += ex.dev_units(cfg, entropy, N, D, nchunks=8 if D == 2 else 2, mode=mode, K=512,
                                   opts=dict(grid=pg), **vis)
+    ex.selfcheck_determinism(entropy)
+    chk.count('determinism_selfcheck_passed')
     chk.count('work_units', len(units))
     for part in pmap(ex.run_unit, units):
         chk.merge(part)
